@@ -45,6 +45,8 @@ Fixpoint text_ok (en : env) (e : expr) {struct e} : Prop :=
                     (fix all (l : list expr) : Prop := match l with [] => True | x :: r => text_ok en x /\ all r end) items
   | EObj _ _ x => text_ok en x
   | EMenu _ it mn => text_ok en it /\ text_ok en mn
+  (* a system property is written "the <name>" when its object is one of the runtime objects (_movie, _system, ...) *)
+  | EThe TSystem i => starts_with "_" (assoc_or (nth i (the_table TSystem) "") SYSTEM_PROPERTIES) = true
   | _ => True
   end.
 Fixpoint text_ok_args (en : env) (l : list expr) : Prop := match l with [] => True | x :: r => text_ok en x /\ text_ok_args en r end.
@@ -145,6 +147,7 @@ Proof.
   - match goal with |- context [let '(a, b) := ?X in _] => destruct X end; reflexivity.
   - match goal with |- context [let '(a, b) := ?X in _] => destruct X end. destruct items; reflexivity.
   - destruct f; reflexivity.
+  - destruct k; reflexivity.
 Qed.
 
 Lemma ident_text en pc x : PT en x -> text_ok en x -> forall k po ind,
@@ -161,6 +164,10 @@ Lemma accessor_text p obj prop ind o : gen_lingo obj ind = o ->
   String.eqb o "me" = false -> starts_with "_" o = false -> String.eqb o "tell_obj" = false ->
   gen_lingo (Accessor p obj prop) ind = ("the " ++ prop ++ " of " ++ o)%string.
 Proof. intros E H1 H2 H3. unfold gen_lingo in *. cbn [gen_lingo_sp]. rewrite E, H1, H2, H3. reflexivity. Qed.
+Lemma accessor_text_own p obj prop ind o : gen_lingo obj ind = o ->
+  String.eqb o "me" = false -> starts_with "_" o = true ->
+  gen_lingo (Accessor p obj prop) ind = ("the " ++ prop)%string.
+Proof. intros E H1 H2. unfold gen_lingo in *. cbn [gen_lingo_sp]. rewrite E, H1, H2. reflexivity. Qed.
 Lemma ustrop_some_text nm p t obj ind o : gen_lingo obj ind = o ->
   gen_lingo (UStrOp nm p (Some t) obj) ind =
   (if String.eqb nm "last" then "the " ++ nm ++ " " ++ t ++ " of " ++ o else "the " ++ nm ++ " of " ++ t ++ "s of " ++ o)%string.
@@ -249,6 +256,12 @@ Proof.
   - (* the <property> of menuItem <id> of menu <id> *) intros pid it mn IHi IHm [Hi Hm] pc ind. cbn [reify_e pp_tok].
     erewrite accessor_text; [|apply menuitem_text; [apply (ident_text en _ mn IHm Hm)|apply (ident_text en pc it IHi Hi)]|reflexivity..].
     norm_render. reflexivity.
+  - (* the <special / date-time / system property> *) intros k i Hok pc ind. cbn [reify_e pp_tok]. norm_render.
+    destruct k; cbn [the_node the_table text_ok] in *; try reflexivity.
+    erewrite accessor_text_own; [reflexivity | reflexivity | | exact Hok].
+    destruct (assoc_or (nth i (map fst SYSTEM_PROPERTIES) "") SYSTEM_PROPERTIES) as [|c r]; [discriminate Hok|].
+    unfold starts_with in Hok. cbn [prefix] in Hok.
+    match type of Hok with (if Ascii.ascii_dec ?a c then _ else _) = _ => destruct (Ascii.ascii_dec a c) as [<-|] end; [reflexivity|discriminate Hok].
   - intros _ pc ind. reflexivity.
   - intros x l IHx IHl [Hx Hl] pc ind. cbn [reify_args]. destruct (reify_args en (pc + zlen (compile_e x)) l) as [ns pa] eqn:Er.
     cbn [fst map]. rewrite (IHx Hx). specialize (IHl Hl (pc + zlen (compile_e x))%Z ind). rewrite Er in IHl. cbn [fst] in IHl. rewrite IHl. reflexivity.
